@@ -235,7 +235,7 @@ func c02Pool() []c02PoolItem {
 		}
 		pool = append(pool, c02PoolItem{s, func() map[string]any { return c20Bind() }})
 	}
-	for _, s := range []string{"{{ ptr }}{{ pstr }}", "{{ m }}{{ hash }}{{ pages }}", "{{ ptr.A }}{{ m.j }}", "{{ l | json }}{{ m | json }}{{ hash | inspect }}",
+	for _, s := range []string{"  \n\tleading whitespace {{ x }}", " {{ x }}", "\n{% raw %} r{% endraw %}", " ", "{{ pstr | prepend: '  ' }}", "{{ ptr }}{{ pstr }}", "{{ m }}{{ hash }}{{ pages }}", "{{ ptr.A }}{{ m.j }}", "{{ l | json }}{{ m | json }}{{ hash | inspect }}",
 		"{{ a | sort | join }}{{ pages | map: 'category' | compact | join }}", "{% for p in pages %}{{ p }}{% endfor %}", "{{ no | fail }}", "{{ 1 | divided_by: 0 }}\n", "a\n{% if %}"} {
 		pool = append(pool, c02PoolItem{s, corpusBind})
 	}
@@ -315,12 +315,11 @@ func c02EntryPoints(e *liquid.Engine, src string, b func() map[string]any) (name
 	// half-way (partial output already produced) and after an unrelated successful render
 	failing := "LEFT{{ 1 }}OVER{{ 2 }}{{ 1 | divided_by: 0 }}"
 	other := "unrelated {{ 'output' | upcase }} {% for i in (1..3) %}{{ i }}{% endfor %}"
-	for _, prior := range []string{failing, other} {
+	trimEnd := "ends with a trim marker {% if true %}x{% endif -%}"
+	trimFail := "fails right after a trim marker {{ 1 -}}{{ 1 | divided_by: 0 }}"
+	for _, prior := range []string{failing, other, trimEnd, trimFail} {
 		prior := prior
-		tag := "a failed render"
-		if prior == other {
-			tag = "an unrelated render"
-		}
+		tag := map[string]string{failing: "a failed render", other: "an unrelated render", trimEnd: "a render ending in a right-trim marker", trimFail: "a render failing after a right-trim marker"}[prior]
 		add("Render after "+tag, func() (string, liquid.SourceError) {
 			if pt, err := e.ParseString(prior); err == nil {
 				pt.Render(b())
